@@ -456,6 +456,7 @@ class Tree_getitem(Contract):
 
 PathExt = z3.Function("PathExt", I, I, I, I)      # path, kind of step (0 child / 1 source), index -> path
 ReplacementAt = z3.Function("ReplacementAt", I, I)  # path -> identity of the replacement tree registered for it
+ReplacedOf = z3.Function("ReplacedOf", I, I)        # node -> identity of the tree the recursive replace_multiple returns for it
 SymOfTree = z3.Function("SymOfTree", I, I)         # tree identity -> identity of its symbol
 
 
@@ -601,6 +602,9 @@ class Tree_replace_multiple(Contract):
     }
 
     def inputs(self, cx):
+        return self._base_inputs(cx, generator=False)
+
+    def _base_inputs(self, cx, generator: bool):
         setup(cx)
         cx.ghost["inline_ok"] |= {f"{REL}:DerivationTree.__init__", f"{REL}:DerivationTree.sources@setter", f"{REL}:DerivationTree.read_only",
                                   f"{REL}:PathStep.__init__", f"{REL}:ChildStep.__init__", f"{REL}:SourceStep.__init__"}
@@ -611,7 +615,8 @@ class Tree_replace_multiple(Contract):
         gens = cx.int_dict("generators")
         g.fields["generators"] = gens
         # this contract covers nodes whose symbol is not defined by a generator (the generator branch re-runs user code)
-        cx.assume(Not(z3.Select(gens.keys, s.fields["_symbol"].ident)))
+        has_gen = z3.Select(gens.keys, s.fields["_symbol"].ident)
+        cx.assume(has_gen if generator else Not(has_gen))
         p2r = cx.int_dict("path_to_replacement")
 
         memo = {}
@@ -638,6 +643,9 @@ class Tree_replace_multiple(Contract):
         src = a["self"]
         sym = src.fields["_symbol"] if "_symbol" in src.fields else None
         t = plain_tree(cx, "replaced", fresh=True, symbol_obj=sym)
+        if getattr(src, "ident", None) is not None:
+            # the result for a node is named by a function of the node (each node is visited once per call)
+            cx.assume(t.ident == ReplacedOf(src.ident))
         return t
 
     def ensures(self, cx, a, r):
